@@ -87,7 +87,7 @@ Qed.
 Definition op_index (o : op) : option Z :=
   match o with
   | Read i _ | Assign i _ _ _ | Mutate i _ _ | Register i _ _ _ | AddTrait i _ _ | Introspect i _
-  | SetMeta i _ _ | AssignFrom i _ _ => Some i
+  | SetMeta i _ _ | AssignFrom i _ _ | Delete i _ => Some i
   | NewInst _ => None
   end.
 
@@ -103,7 +103,7 @@ Lemma step_shape0 w o :
       step_inst w (inst_at w (target w o)) o = (ins', r, nx) /\
       step0 w o = (mkW (w_classes w) (update_nth (Z.to_nat (target w o)) (fun _ => ins') (w_insts w)) nx, r)).
 Proof.
-  destruct o as [i n|i n content scalar|i n x|i n hid via|i n t|i n code|i n src|i md|c]; [| | | | | | | |left; eexists; reflexivity]; right;
+  destruct o as [i n|i n content scalar|i n x|i n hid via|i n t|i n|i n code|i n src|i md|c]; [| | | | | | | | |left; eexists; reflexivity]; right;
     cbn [step0 target op_index];
     (destruct ((i <? 0) || (Z.of_nat (length (w_insts w)) <=? i)) eqn:Ec;
      [left; split; [reflexivity|]; unfold valid_index; intros [H1 H2];
@@ -305,9 +305,37 @@ Proof.
       -- apply calls_ok_mono; [exact Hok | intros m; apply aset_mono].
 Qed.
 
+Lemma alookup_aremove {A} k n (l : list (Z * A)) : alookup k (aremove n l) = if k =? n then None else alookup k l.
+Proof.
+  unfold aremove. induction l as [|[k2 a] r IH]; cbn [filter alookup fst]; [destruct (k =? n); reflexivity|].
+  destruct (Z.eqb_spec n k2) as [->|Hne]; cbn [negb alookup].
+  - rewrite IH. destruct (Z.eqb_spec k k2); reflexivity.
+  - rewrite IH. destruct (Z.eqb_spec k k2) as [->|]; [|reflexivity].
+    destruct (Z.eqb_spec k2 n); [congruence | reflexivity].
+Qed.
+
+Lemma delete_inst_calls_ok w ins n : calls_ok ins -> calls_ok (fst (fst (delete_inst w ins n))).
+Proof.
+  intros Hok. unfold delete_inst. destruct (alookup n (i_dict ins)) as [ov|]; [|exact Hok].
+  set (ins1 := mkI (i_cls ins) (aremove n (i_dict ins)) (i_itraits ins) (aremove n (i_calls ins)) (i_log ins) (i_regs ins)).
+  assert (H1 : calls_ok ins1).
+  { unfold calls_ok in *. subst ins1. cbn [i_calls i_dict]. apply Forall_forall. intros p Hp.
+    unfold aremove in Hp. apply filter_In in Hp. destruct Hp as [Hin Hne]. rewrite Forall_forall in Hok. destruct (Hok p Hin) as [Hc Hd].
+    split; [exact Hc|]. rewrite alookup_aremove. apply negb_true_iff in Hne.
+    rewrite Z.eqb_sym, Hne. exact Hd. }
+  assert (Hn : alookup n (i_dict ins1) = None) by (subst ins1; cbn [i_dict]; rewrite alookup_aremove, Z.eqb_refl; reflexivity).
+  replace (resolve w ins n) with (resolve w ins1 n) by reflexivity.
+  destruct (resolve w ins1 n) as [t|]; [|exact H1].
+  replace (hids ins t n) with (hids ins1 t n) by reflexivity.
+  destruct (hids ins1 t n) as [|h hs]; [exact H1|].
+  destruct (materialise_calls_ok w ins1 n t H1 Hn) as (H2 & _ & _).
+  destruct (materialise w ins1 n t) as [[ins2 v] nx]. cbn [fst] in *.
+  apply calls_ok_mono; [exact H2 | auto].
+Qed.
+
 Lemma step_inst_calls_ok w ins o : calls_ok ins -> calls_ok (fst (fst (step_inst w ins o))).
 Proof.
-  intros Hok. destruct o as [i n|i n content scalar|i n x|i n hid via|i n t|i n code|i n src|i md|c]; cbn [step_inst].
+  intros Hok. destruct o as [i n|i n content scalar|i n x|i n hid via|i n t|i n|i n code|i n src|i md|c]; cbn [step_inst].
   - (* Read *)
     destruct (alookup n (i_dict ins)) eqn:Ed; [exact Hok|].
     destruct (resolve w ins n) as [t|]; [|exact Hok]. apply materialise_calls_ok; assumption.
@@ -328,6 +356,8 @@ Proof.
   - (* AddTrait *)
     match goal with |- context [if ?c then (w_next w, w_next w + 1) else (0, w_next w)] => destruct c end;
       cbn [fst]; (apply calls_ok_mono; [exact Hok | auto]).
+  - (* Delete *)
+    apply delete_inst_calls_ok, Hok.
   - (* SetMeta *)
     destruct (alookup n (i_itraits ins)); [|exact Hok]. destruct (alookup n (class_of w ins)); [exact Hok|].
     cbn [fst]. apply calls_ok_mono; [exact Hok | auto].
@@ -413,8 +443,8 @@ Lemma value_oids_mutate v x : value_oids (mutate_value v x) = value_oids v.
 Proof.
   unfold mutate_value, value_oids. destruct v as [sh ps]. cbn [v_shape v_parts].
   destruct sh as [|p|p]; try reflexivity.
-  do 3 (try (destruct p as [p|p|]; try reflexivity));
-    destruct ps as [|[o c] [|[o2 c2] [|[o3 c3] r3]]]; reflexivity.
+  do 4 (try (destruct p as [p|p|]; try reflexivity));
+    destruct ps as [|[o c] [|[o2 c2] [|[o3 c3] r3]]]; try reflexivity; destruct c; reflexivity.
 Qed.
 
 Definition dict_oids (d : list (Z * value)) : list Z := flat_map (fun p => value_oids (snd p)) d.
@@ -537,6 +567,39 @@ Section Alloc.
          apply ensure_itrait_below; [exact Hi'|]; pose proof (resolve_below ins n t Hi Er); lia).
   Qed.
 
+  Lemma below_dict_aremove b n d : below b (dict_oids d) -> below b (dict_oids (aremove n d)).
+  Proof.
+    intros Hd. unfold aremove. induction d as [|[k x] d IH]; cbn [filter dict_oids flat_map snd fst] in *; [constructor|].
+    apply below_app in Hd. destruct Hd as [H1 H2]. destruct (negb (n =? k)); cbn [dict_oids flat_map snd];
+      [apply below_app; split; [exact H1 | apply IH, H2] | apply IH, H2].
+  Qed.
+
+  Lemma delete_inst_below ins n :
+    below (w_next w) (dict_oids (i_dict ins)) -> below (w_next w) (itrait_oids (i_itraits ins)) ->
+    let '(ins', r, nx) := delete_inst w ins n in
+    w_next w <= nx /\ below nx (inst_oids ins').
+  Proof.
+    intros Hd Hi.
+    assert (Hsame : w_next w <= w_next w /\ below (w_next w) (inst_oids ins)).
+    { split; [lia|]. rewrite inst_oids_split. apply below_app. split; assumption. }
+    unfold delete_inst. destruct (alookup n (i_dict ins)) as [ov|]; [|exact Hsame].
+    set (ins1 := mkI (i_cls ins) (aremove n (i_dict ins)) (i_itraits ins) (aremove n (i_calls ins)) (i_log ins) (i_regs ins)).
+    assert (Hd1 : below (w_next w) (dict_oids (i_dict ins1))) by (subst ins1; cbn [i_dict]; apply below_dict_aremove, Hd).
+    assert (H1 : w_next w <= w_next w /\ below (w_next w) (inst_oids ins1)).
+    { split; [lia|]. rewrite inst_oids_split. apply below_app. split; [exact Hd1 | exact Hi]. }
+    replace (resolve w ins n) with (resolve w ins1 n) by reflexivity.
+    destruct (resolve w ins1 n) as [t|] eqn:Er; [|exact H1].
+    replace (hids ins t n) with (hids ins1 t n) by reflexivity.
+    destruct (hids ins1 t n) as [|h hs]; [exact H1|].
+    pose proof (materialise_below ins1 n t Hd1) as H. destruct (materialise w ins1 n t) as [[ins2 v] nx].
+    destruct H as (Hle & H2 & H3 & _). split; [exact Hle|]. rewrite inst_oids_split. cbn [i_dict i_itraits].
+    apply below_app. split; [exact H2|].
+    assert (Hi2 : below nx (itrait_oids (i_itraits ins2))) by (rewrite H3; eapply below_weaken; eassumption).
+    match goal with |- below _ (itrait_oids (if ?c then _ else _)) => destruct c end; [|exact Hi2].
+    apply ensure_itrait_below; [exact Hi2|].
+    assert (Ht : t_doid t < w_next w) by (apply (resolve_below ins1 n t); [exact Hi | exact Er]). lia.
+  Qed.
+
   (* every operation keeps the instance's objects below the (advanced) allocator *)
   Lemma step_inst_below ins o :
     below (w_next w) (inst_oids ins) ->
@@ -546,7 +609,7 @@ Section Alloc.
     intros Hb. rewrite inst_oids_split in Hb. apply below_app in Hb. destruct Hb as [Hd Hi].
     assert (Hsame : w_next w <= w_next w /\ below (w_next w) (inst_oids ins)).
     { split; [lia|]. rewrite inst_oids_split. apply below_app. split; assumption. }
-    destruct o as [i n|i n content scalar|i n x|i n hid via|i n t|i n code|i n src|i md|c]; cbn [step_inst].
+    destruct o as [i n|i n content scalar|i n x|i n hid via|i n t|i n|i n code|i n src|i md|c]; cbn [step_inst].
     - (* Read *)
       destruct (alookup n (i_dict ins)); [exact Hsame|]. destruct (resolve w ins n) as [t|]; [|exact Hsame].
       pose proof (materialise_below ins n t Hd) as H. destruct (materialise w ins n t) as [[ins' v] nx].
@@ -614,6 +677,8 @@ Section Alloc.
       + split; [lia|]. rewrite inst_oids_split. cbn [i_dict i_itraits]. apply below_app. split; [exact Hd|].
         match goal with |- context [match ?o with Some _ => _ | None => _ end] => destruct o end;
           [|apply Hfire; [lia|]]; (apply below_itraits_aset; [exact H0 | cbn; lia]).
+    - (* Delete *)
+      apply delete_inst_below; assumption.
     - (* SetMeta *)
       destruct (alookup n (i_itraits ins)) as [t|] eqn:Et; [|exact Hsame].
       destruct (alookup n (class_of w ins)); [exact Hsame|]. split; [lia|].
@@ -879,7 +944,7 @@ Proof.
     assert (Hadd : addressed w o = true).
     { unfold addressed. destruct o; try reflexivity; apply in_range; exact Hv. }
     rewrite Hadd. cbn [negb]. fold (inst_at w (target w o)).
-    destruct o as [i n|i n content scalar|i n x|i n hid via|i n t|i n code|i n src|i md|c]; try (exfalso; eapply Hno; reflexivity);
+    destruct o as [i n|i n content scalar|i n x|i n hid via|i n t|i n|i n code|i n src|i md|c]; try (exfalso; eapply Hno; reflexivity);
       try (cbn [is_default_read is_stored_read is_read negb orb chk app]; exact Hcommon).
     (* Read *)
     pose proof (read_clauses w i n ins' r nx Hwf Hv Hs) as Hr. cbn zeta in Hr. cbn [target] in *.
@@ -1060,7 +1125,7 @@ Lemma resolved_cases w o :
                     prefix_use w (inst_at w (target w o)) o = (cls', ins0) /\
                     resolved w o = mkW cls' (update_nth (Z.to_nat (target w o)) (fun _ => ins0) (w_insts w)) (w_next w).
 Proof.
-  destruct o as [i n|i n content scalar|i n x|i n hid via|i n t|i n code|i n src|i md|c]; [| | | | | | | |left; reflexivity];
+  destruct o as [i n|i n content scalar|i n x|i n hid via|i n t|i n|i n code|i n src|i md|c]; [| | | | | | | | |left; reflexivity];
     unfold resolved; cbn [target];
     (destruct ((i <? 0) || (Z.of_nat (length (w_insts w)) <=? i)) eqn:Ec; [left; reflexivity|]);
     right; fold (inst_at w i);
@@ -1419,4 +1484,24 @@ Proof.
   unfold valid_opb, valid_op, valid_op0 in *. destruct (op_index o) as [i|]; [|exact I].
   apply andb_true_iff in H1. destruct H1 as [Ha Hb]. apply Z.leb_le in Ha. apply Z.ltb_lt in Hb.
   unfold valid_index. lia.
+Qed.
+
+(* del obj.n: without listeners the attribute is simply unassigned again; with listeners the default it reverts to
+   is computed once, STORED (later reads return the object the handlers got as `new`) and counted once *)
+Lemma delete_inst_effect w ins n ov t :
+  alookup n (i_dict ins) = Some ov -> resolve w ins n = Some t ->
+  let ins' := fst (fst (delete_inst w ins n)) in
+  match hids ins t n with
+  | [] => alookup n (i_dict ins') = None /\ alookup n (i_calls ins') = None
+  | _ :: _ => alookup n (i_dict ins') = Some (fst (default_value t (w_next w)))
+              /\ alookup n (i_calls ins') = (if counted t then Some 1 else None)
+  end.
+Proof.
+  intros Hd Hr. cbn zeta. unfold delete_inst. rewrite Hd, Hr.
+  destruct (hids ins t n) as [|h hs]; cbn [fst i_dict i_calls].
+  - rewrite !alookup_aremove, Z.eqb_refl. split; reflexivity.
+  - unfold materialise. destruct (default_value t (w_next w)) as [v nx]. cbn [fst i_dict i_calls].
+    rewrite alookup_app, alookup_aremove, Z.eqb_refl. cbn [alookup]. rewrite Z.eqb_refl. split; [reflexivity|].
+    destruct (counted t); [|rewrite alookup_aremove, Z.eqb_refl; reflexivity].
+    apply alookup_bump_same. rewrite alookup_aremove, Z.eqb_refl. reflexivity.
 Qed.
